@@ -668,6 +668,13 @@ def _vec_copy(interp, self, args, kwargs):
 def _vec_getitem(interp, self: Vec, args, kwargs):
     ctx = interp.ctx
     idx = args[0]
+    if getattr(self, "newaxis", None) == "row" and isinstance(idx, Num):
+        # array of shape (1, n): only row 0 exists
+        if conc(idx.z) not in (0, -1):
+            raise PyRaise("IndexError", "index out of bounds for axis 0 with size 1")
+        out = Vec(self.length, buf=self.buf, kind=self.kind, imap=self.imap)
+        out.items = self.items
+        return out
     if isinstance(idx, (Num, Bool)):
         k = norm_index(ctx, idx, self.length, "index")
         return vget(ctx, self, k)
